@@ -154,5 +154,6 @@ pub fn q_fp(base: u64, class: &str, method: &str, line: u64, file: bool, params:
 }
 
 pub fn ctx_rng(ctx: &Ctx, case: u64) -> Rng {
+    ctx.note_case(case);
     Rng::new(ctx.case_seed(case))
 }
